@@ -72,6 +72,18 @@ func c02Case(t listTemplate, decs []chunk, blank bool, hist []editOp) (sig, what
 	if src == "" {
 		return "", "", false
 	}
+	// every seventh source is generated code: a //line directive without a column stands in front of the
+	// first declaration (positions adjusted by it have column 0 and another line; the decorator has to
+	// work from the unadjusted ones)
+	directive := func(s string) string { return s }
+	if len(src)%7 == 3 && !strings.HasPrefix(t.Name, "File.Decls") { // (top-level declarations are the list there: the directive would be part of the first chunk)
+		directive = func(s string) string { return strings.Replace(s, "\n\n", "\n\n//line gen.y:100\n", 1) }
+		if d := canonical(directive(src)); d == directive(src) {
+			src = d
+		} else {
+			directive = func(s string) string { return s }
+		}
+	}
 	var f *dst.File
 	var err error
 	viaAst := false
@@ -155,6 +167,7 @@ func c02Case(t listTemplate, decs []chunk, blank bool, hist []editOp) (sig, what
 	if want == "" {
 		return "", "", false
 	}
+	want = directive(want)
 	// the same tree through a restorer that also restores objects and scopes (Extras)
 	var xbuf bytes.Buffer
 	var xerr error
